@@ -1046,7 +1046,504 @@ def check_faults(module, args, rng=None, only=None):
 # prefix pattern ending in '*'.  Filled from a complete run of `search` (see the report); each entry carries one exact call.
 # ------------------------------------------------------------------------------------------------------------------
 
-KNOWN = {}
+KNOWN = {
+    ('alignment', 'shape:all_identical', 'evaluate'): {
+        'call': 'mir_eval.alignment.evaluate(np.array([2.0, 2.0, 2.0]), np.array([2.0, 2.0, 2.0]))',
+        'observed': 'ValueError: Reference timestamps are all identical, can not compute PCS metric!',
+        'cause': 'percentage_correct_segments needs two distinct reference timestamps (documented only in the error message)'},
+    ('alignment', 'shape:all_identical', 'percentage_correct_segments'): {
+        'call': 'mir_eval.alignment.percentage_correct_segments(np.array([2.0, 2.0, 2.0]), np.array([2.0, 2.0, 2.0]))',
+        'observed': 'ValueError: Reference timestamps are all identical, can not compute PCS metric!',
+        'cause': 'percentage_correct_segments needs two distinct reference timestamps (documented only in the error message)'},
+    ('alignment', 'shape:single_both', 'evaluate'): {
+        'call': 'mir_eval.alignment.evaluate(np.array([2.0]), np.array([2.5]))',
+        'observed': 'ValueError: Reference timestamps are all identical, can not compute PCS metric!',
+        'cause': 'percentage_correct_segments needs two distinct reference timestamps (documented only in the error message)'},
+    ('alignment', 'shape:single_both', 'percentage_correct_segments'): {
+        'call': 'mir_eval.alignment.percentage_correct_segments(np.array([2.0]), np.array([2.5]))',
+        'observed': 'ValueError: Reference timestamps are all identical, can not compute PCS metric!',
+        'cause': 'percentage_correct_segments needs two distinct reference timestamps (documented only in the error message)'},
+    ('beat', 'fault:est_2d_column', 'evaluate'): {
+        'call': 'mir_eval.beat.evaluate(np.array([6.71875, 6.78125, 12.15625, 13.875, 20.53125, 21.90625, 23.3125, 24.3125]), np.array([[6.71875], [6.78125], [12.15625], [13.875], [20.53125], [21.90625], [23.3125], [24.3125]]))',
+        'observed': "returned {'F-measure': 1.0, 'Cemgil': np.float64(1.0), 'Cemgil Best Metric Level': np.float64(1.0), 'Goto': 1.0, 'P-score': np.float64(1.25), 'Correct Metric Level Continuous': np.float64(1.0), 'Corre",
+        'cause': 'beat.evaluate trims with boolean indexing (flattens 2-d input, may trim the offending events away) before validate runs'},
+    ('beat', 'fault:est_2d_row', 'evaluate'): {
+        'call': 'mir_eval.beat.evaluate(np.array([6.71875, 6.78125, 12.15625, 13.875, 20.53125, 21.90625, 23.3125, 24.3125]), np.array([[6.71875, 6.78125, 12.15625, 13.875, 20.53125, 21.90625, 23.3125, 24.3125]]))',
+        'observed': "returned {'F-measure': 1.0, 'Cemgil': np.float64(1.0), 'Cemgil Best Metric Level': np.float64(1.0), 'Goto': 1.0, 'P-score': np.float64(1.25), 'Correct Metric Level Continuous': np.float64(1.0), 'Corre",
+        'cause': 'beat.evaluate trims with boolean indexing (flattens 2-d input, may trim the offending events away) before validate runs'},
+    ('beat', 'fault:est_unsorted', 'evaluate'): {
+        'call': 'mir_eval.beat.evaluate(np.array([1.0, 2.0, 3.0]), np.array([3.0, 2.0, 1.0]))',
+        'observed': "returned {'F-measure': 0.0, 'Cemgil': 0.0, 'Cemgil Best Metric Level': 0.0, 'Goto': 0.0, 'P-score': 0.0, 'Correct Metric Level Continuous': 0.0, 'Correct Metric Level Total': 0.0, 'Any Metric Level Co",
+        'cause': 'beat.evaluate trims with boolean indexing (flattens 2-d input, may trim the offending events away) before validate runs'},
+    ('beat', 'fault:ref_2d_column', 'evaluate'): {
+        'call': 'mir_eval.beat.evaluate(np.array([[6.71875], [6.78125], [12.15625], [13.875], [20.53125], [21.90625], [23.3125], [24.3125]]), np.array([6.71875, 6.78125, 12.15625, 13.875, 20.53125, 21.90625, 23.3125, 24.3125]))',
+        'observed': "returned {'F-measure': 1.0, 'Cemgil': np.float64(1.0), 'Cemgil Best Metric Level': np.float64(1.0), 'Goto': 1.0, 'P-score': np.float64(1.25), 'Correct Metric Level Continuous': np.float64(1.0), 'Corre",
+        'cause': 'beat.evaluate trims with boolean indexing (flattens 2-d input, may trim the offending events away) before validate runs'},
+    ('beat', 'fault:ref_2d_row', 'evaluate'): {
+        'call': 'mir_eval.beat.evaluate(np.array([[6.71875, 6.78125, 12.15625, 13.875, 20.53125, 21.90625, 23.3125, 24.3125]]), np.array([6.71875, 6.78125, 12.15625, 13.875, 20.53125, 21.90625, 23.3125, 24.3125]))',
+        'observed': "returned {'F-measure': 1.0, 'Cemgil': np.float64(1.0), 'Cemgil Best Metric Level': np.float64(1.0), 'Goto': 1.0, 'P-score': np.float64(1.25), 'Correct Metric Level Continuous': np.float64(1.0), 'Corre",
+        'cause': 'beat.evaluate trims with boolean indexing (flattens 2-d input, may trim the offending events away) before validate runs'},
+    ('beat', 'fault:ref_unsorted', 'evaluate'): {
+        'call': 'mir_eval.beat.evaluate(np.array([3.0, 2.0, 1.0]), np.array([1.0, 2.0, 3.0]))',
+        'observed': "returned {'F-measure': 0.0, 'Cemgil': 0.0, 'Cemgil Best Metric Level': 0.0, 'Goto': 0.0, 'P-score': 0.0, 'Correct Metric Level Continuous': 0.0, 'Correct Metric Level Total': 0.0, 'Any Metric Level Co",
+        'cause': 'beat.evaluate trims with boolean indexing (flattens 2-d input, may trim the offending events away) before validate runs'},
+    ('beat', 'shape:all_identical', 'evaluate'): {
+        'call': 'mir_eval.beat.evaluate(np.array([7.0, 7.0, 7.0]), np.array([7.0, 7.0, 7.0]))',
+        'observed': 'ValueError: cannot convert float NaN to integer',
+        'cause': 'p_score on beats that are all identical: median inter-beat interval 0 -> NaN window -> int(NaN)'},
+    ('beat', 'shape:all_identical', 'p_score'): {
+        'call': 'mir_eval.beat.p_score(np.array([7.0, 7.0, 7.0]), np.array([7.0, 7.0, 7.0]))',
+        'observed': 'ValueError: cannot convert float NaN to integer',
+        'cause': 'p_score on beats that are all identical: median inter-beat interval 0 -> NaN window -> int(NaN)'},
+    ('chord', 'fault:est_1d', 'evaluate'): {
+        'call': "mir_eval.chord.evaluate(np.array([[0.0, 4.0]]), ['D:sus4'], np.array([0.0, 4.0, 4.0, 5.5]), ['Db:1', 'B:hdim7'])",
+        'observed': 'IndexError: too many indices for array: array is 1-dimensional, but 2 were indexed',
+        'cause': 'evaluate() preprocesses (util.adjust_intervals / _align_intervals index intervals[:, 1] and labels) BEFORE util.validate_intervals runs'},
+    ('chord', 'fault:est_3d', 'evaluate'): {
+        'call': "mir_eval.chord.evaluate(np.array([[0.0, 4.0]]), ['Db:1'], np.array([[[0.0, 4.0]]]), ['Db:1'])",
+        'observed': 'IndexError: index 1 is out of bounds for axis 1 with size 1',
+        'cause': 'evaluate() preprocesses (util.adjust_intervals / _align_intervals index intervals[:, 1] and labels) BEFORE util.validate_intervals runs'},
+    ('chord', 'fault:est_fewer_labels', 'evaluate'): {
+        'call': "mir_eval.chord.evaluate(np.array([[0.0, 4.0]]), ['D:sus4'], np.array([[0.0, 4.0], [4.0, 5.5]]), ['Db:1'])",
+        'observed': "returned {'thirds': np.float64(0.0), 'thirds_inv': np.float64(0.0), 'triads': np.float64(0.0), 'triads_inv': np.float64(0.0), 'tetrads': np.float64(0.0), 'tetrads_inv': np.float64(0.0), 'root': np.flo",
+        'cause': 'evaluate() crops / pads the annotations (util.adjust_intervals) BEFORE any validator runs: the fault is cut away or re-labelled instead of rejected'},
+    ('chord', 'fault:est_label_malformed*', 'evaluate'): {
+        'call': "mir_eval.chord.evaluate(np.array([[0.0, 4.0]]), ['D:sus4'], np.array([[0.0, 4.0], [4.0, 5.5]]), ['Db:1', ''])",
+        'observed': "returned {'thirds': np.float64(0.0), 'thirds_inv': np.float64(0.0), 'triads': np.float64(0.0), 'triads_inv': np.float64(0.0), 'tetrads': np.float64(0.0), 'tetrads_inv': np.float64(0.0), 'root': np.flo",
+        'cause': 'evaluate() crops / pads the annotations (util.adjust_intervals) BEFORE any validator runs: the fault is cut away or re-labelled instead of rejected'},
+    ('chord', 'fault:est_more_labels', 'evaluate'): {
+        'call': "mir_eval.chord.evaluate(np.array([[0.0, 4.0]]), ['D:sus4'], np.array([[0.0, 4.0], [4.0, 5.5]]), ['Db:1', 'B:hdim7', 'C'])",
+        'observed': "returned {'thirds': np.float64(0.0), 'thirds_inv': np.float64(0.0), 'triads': np.float64(0.0), 'triads_inv': np.float64(0.0), 'tetrads': np.float64(0.0), 'tetrads_inv': np.float64(0.0), 'root': np.flo",
+        'cause': 'evaluate() crops / pads the annotations (util.adjust_intervals) BEFORE any validator runs: the fault is cut away or re-labelled instead of rejected'},
+    ('chord', 'fault:est_n_by_1', 'evaluate'): {
+        'call': "mir_eval.chord.evaluate(np.array([[0.0, 4.0]]), ['D:sus4'], np.array([[0.0], [4.0]]), ['Db:1', 'B:hdim7'])",
+        'observed': 'IndexError: index 1 is out of bounds for axis 1 with size 1',
+        'cause': 'evaluate() preprocesses (util.adjust_intervals / _align_intervals index intervals[:, 1] and labels) BEFORE util.validate_intervals runs'},
+    ('chord', 'fault:est_n_by_3', 'evaluate'): {
+        'call': "mir_eval.chord.evaluate(np.array([[0.0, 2.0], [2.0, 4.0]]), ['C', 'G:7'], np.zeros((0, 3)), [])",
+        'observed': "returned {'thirds': np.float64(0.0), 'thirds_inv': np.float64(0.0), 'triads': np.float64(0.0), 'triads_inv': np.float64(0.0), 'tetrads': np.float64(0.0), 'tetrads_inv': np.float64(0.0), 'root': np.flo",
+        'cause': 'evaluate() crops / pads the annotations (util.adjust_intervals) BEFORE any validator runs: the fault is cut away or re-labelled instead of rejected'},
+    ('chord', 'fault:est_negative_duration', 'evaluate'): {
+        'call': "mir_eval.chord.evaluate(np.array([[0.0, 4.0]]), ['D:sus4'], np.array([[4.0, 0.0], [4.0, 5.5]]), ['Db:1', 'B:hdim7'])",
+        'observed': "returned {'thirds': np.float64(0.0), 'thirds_inv': np.float64(0.0), 'triads': np.float64(0.0), 'triads_inv': np.float64(0.0), 'tetrads': np.float64(0.0), 'tetrads_inv': np.float64(0.0), 'root': np.flo",
+        'cause': 'evaluate() crops / pads the annotations (util.adjust_intervals) BEFORE any validator runs: the fault is cut away or re-labelled instead of rejected'},
+    ('chord', 'fault:est_negative_time', 'evaluate'): {
+        'call': "mir_eval.chord.evaluate(np.array([[0.0, 4.0]]), ['D:sus4'], np.array([[-0.5, 4.0], [4.0, 5.5]]), ['Db:1', 'B:hdim7'])",
+        'observed': "returned {'thirds': np.float64(0.0), 'thirds_inv': np.float64(0.0), 'triads': np.float64(0.0), 'triads_inv': np.float64(0.0), 'tetrads': np.float64(0.0), 'tetrads_inv': np.float64(0.0), 'root': np.flo",
+        'cause': 'evaluate() crops / pads the annotations (util.adjust_intervals) BEFORE any validator runs: the fault is cut away or re-labelled instead of rejected'},
+    ('chord', 'fault:est_overlapping', 'directional_hamming_distance'): {
+        'call': 'mir_eval.chord.directional_hamming_distance(np.array([[0.0, 4.0], [4.0, 5.5], [5.5, 8.0]]), np.array([[0.0, 7.5], [7.0, 8.0]]))',
+        'observed': 'returned np.float64(0.125)',
+        'cause': 'directional_hamming_distance checks overlaps of its FIRST argument only (documented for both); seg checks both'},
+    ('chord', 'fault:est_overlapping', 'evaluate'): {
+        'call': "mir_eval.chord.evaluate(np.array([[0.0, 4.0]]), ['D:sus4'], np.array([[0.0, 4.75], [4.0, 5.5]]), ['Db:1', 'B:hdim7'])",
+        'observed': "returned {'thirds': np.float64(0.0), 'thirds_inv': np.float64(0.0), 'triads': np.float64(0.0), 'triads_inv': np.float64(0.0), 'tetrads': np.float64(0.0), 'tetrads_inv': np.float64(0.0), 'root': np.flo",
+        'cause': 'evaluate() crops / pads the annotations (util.adjust_intervals) BEFORE any validator runs: the fault is cut away or re-labelled instead of rejected'},
+    ('chord', 'fault:est_overlapping', 'overseg'): {
+        'call': 'mir_eval.chord.overseg(np.array([[0.0, 4.0], [4.0, 5.5], [5.5, 8.0]]), np.array([[0.0, 7.5], [7.0, 8.0]]))',
+        'observed': 'returned np.float64(0.875)',
+        'cause': 'directional_hamming_distance checks overlaps of its FIRST argument only (documented for both); seg checks both'},
+    ('chord', 'fault:est_zero_duration', 'evaluate'): {
+        'call': "mir_eval.chord.evaluate(np.array([[0.0, 4.0]]), ['D:sus4'], np.array([[0.0, 0.0], [4.0, 5.5]]), ['Db:1', 'B:hdim7'])",
+        'observed': "returned {'thirds': np.float64(0.0), 'thirds_inv': np.float64(0.0), 'triads': np.float64(0.0), 'triads_inv': np.float64(0.0), 'tetrads': np.float64(0.0), 'tetrads_inv': np.float64(0.0), 'root': np.flo",
+        'cause': 'evaluate() crops / pads the annotations (util.adjust_intervals) BEFORE any validator runs: the fault is cut away or re-labelled instead of rejected'},
+    ('chord', 'fault:ref_1d', 'evaluate'): {
+        'call': "mir_eval.chord.evaluate(np.array([0.0, 4.0]), ['D:sus4'], np.array([[0.0, 4.0], [4.0, 5.5]]), ['Db:1', 'B:hdim7'])",
+        'observed': 'IndexError: too many indices for array: array is 1-dimensional, but 2 were indexed',
+        'cause': 'evaluate() preprocesses (util.adjust_intervals / _align_intervals index intervals[:, 1] and labels) BEFORE util.validate_intervals runs'},
+    ('chord', 'fault:ref_3d', 'evaluate'): {
+        'call': "mir_eval.chord.evaluate(np.array([[[0.0, 4.0]]]), ['Db:1'], np.array([[0.0, 4.0]]), ['Db:1'])",
+        'observed': 'IndexError: index 1 is out of bounds for axis 1 with size 1',
+        'cause': 'evaluate() preprocesses (util.adjust_intervals / _align_intervals index intervals[:, 1] and labels) BEFORE util.validate_intervals runs'},
+    ('chord', 'fault:ref_fewer_labels', 'evaluate'): {
+        'call': "mir_eval.chord.evaluate(np.array([[0.0, 4.0]]), [], np.array([[0.0, 4.0], [4.0, 5.5]]), ['Db:1', 'B:hdim7'])",
+        'observed': 'IndexError: boolean index did not match indexed array along axis 0; size of axis is 0 but size of corresponding boolean axis is 1',
+        'cause': 'evaluate() preprocesses (util.adjust_intervals / _align_intervals index intervals[:, 1] and labels) BEFORE util.validate_intervals runs'},
+    ('chord', 'fault:ref_more_labels', 'evaluate'): {
+        'call': "mir_eval.chord.evaluate(np.array([[0.0, 4.0]]), ['D:sus4', 'C'], np.array([[0.0, 4.0], [4.0, 5.5]]), ['Db:1', 'B:hdim7'])",
+        'observed': 'IndexError: boolean index did not match indexed array along axis 0; size of axis is 2 but size of corresponding boolean axis is 1',
+        'cause': 'evaluate() preprocesses (util.adjust_intervals / _align_intervals index intervals[:, 1] and labels) BEFORE util.validate_intervals runs'},
+    ('chord', 'fault:ref_n_by_1', 'evaluate'): {
+        'call': "mir_eval.chord.evaluate(np.array([[0.0], [4.0], [5.5]]), ['G:7', 'Ab:aug', 'X'], np.array([[0.0, 7.0]]), ['G:7'])",
+        'observed': 'IndexError: index 1 is out of bounds for axis 1 with size 1',
+        'cause': 'evaluate() preprocesses (util.adjust_intervals / _align_intervals index intervals[:, 1] and labels) BEFORE util.validate_intervals runs'},
+    ('chord', 'fault:ref_negative_duration', 'evaluate'): {
+        'call': "mir_eval.chord.evaluate(np.array([[0.0, 4.0], [7.0, 4.0], [7.0, 8.0]]), ['D:min7/b7', 'D:min7/b7', 'C:maj'], np.array([[0.0, 4.0], [4.0, 7.0], [7.0, 8.0]]), ['D:min7/b7', 'D:min7/b7', 'C:maj'])",
+        'observed': "returned {'thirds': np.float64(1.0), 'thirds_inv': np.float64(1.0), 'triads': np.float64(1.0), 'triads_inv': np.float64(1.0), 'tetrads': np.float64(1.0), 'tetrads_inv': np.float64(1.0), 'root': np.flo",
+        'cause': 'evaluate() crops / pads the annotations (util.adjust_intervals) BEFORE any validator runs: the fault is cut away or re-labelled instead of rejected'},
+    ('chord', 'fault:ref_overlapping', 'evaluate'): {
+        'call': "mir_eval.chord.evaluate(np.array([[0.0, 3.0], [2.0, 4.0]]), ['N', 'N'], np.array([[0.0, 4.0]]), ['N'])",
+        'observed': "returned {'thirds': np.float64(1.0), 'thirds_inv': np.float64(1.0), 'triads': np.float64(1.0), 'triads_inv': np.float64(1.0), 'tetrads': np.float64(1.0), 'tetrads_inv': np.float64(1.0), 'root': np.flo",
+        'cause': 'evaluate() crops / pads the annotations (util.adjust_intervals) BEFORE any validator runs: the fault is cut away or re-labelled instead of rejected'},
+    ('chord', 'fault:ref_overlapping', 'underseg'): {
+        'call': 'mir_eval.chord.underseg(np.array([[0.0, 4.75], [4.0, 5.5], [5.5, 8.0]]), np.array([[0.0, 7.0], [7.0, 8.0]]))',
+        'observed': 'returned np.float64(0.625)',
+        'cause': 'directional_hamming_distance checks overlaps of its FIRST argument only (documented for both); seg checks both'},
+    ('chord', 'fault:ref_zero_duration', 'evaluate'): {
+        'call': "mir_eval.chord.evaluate(np.array([[0.0, 0.0], [3.0, 4.0]]), ['Ab:aug', 'Ab:aug'], np.array([[0.0, 0.5], [0.5, 1.5], [1.5, 3.0]]), ['A:min7', 'C:maj6', 'C'])",
+        'observed': "returned {'thirds': np.float64(0.0), 'thirds_inv': np.float64(0.0), 'triads': np.float64(0.0), 'triads_inv': np.float64(0.0), 'tetrads': np.float64(0.0), 'tetrads_inv': np.float64(0.0), 'root': np.flo",
+        'cause': 'evaluate() crops / pads the annotations (util.adjust_intervals) BEFORE any validator runs: the fault is cut away or re-labelled instead of rejected'},
+    ('chord', 'shape:empty_label_lists', 'mirex'): {
+        'call': 'mir_eval.chord.mirex([], [])',
+        'observed': "TypeError: 'numpy.float64' object does not support item assignment",
+        'cause': 'chord.mirex([], []): np.sum over an empty (0,) array is a scalar; the item assignment that follows raises TypeError'},
+    ('chord', 'shape:est_ends_at_ref_start', 'directional_hamming_distance'): {
+        'call': 'mir_eval.chord.directional_hamming_distance(np.array([[2.0, 3.0], [3.0, 4.0]]), np.array([[2.0, 2.0], [2.0, 2.0], [2.0, 4.0]]))',
+        'observed': 'ValueError: All interval durations must be strictly positive',
+        'cause': 'C13-adjust-collapse: util.adjust_intervals keeps zero-duration rows when no estimated interval ends after t_min'},
+    ('chord', 'shape:est_ends_at_ref_start', 'evaluate'): {
+        'call': "mir_eval.chord.evaluate(np.array([[2.0, 3.0], [3.0, 4.0]]), ['C', 'G'], np.array([[0.0, 1.0], [1.0, 2.0]]), ['C', 'G'])",
+        'observed': 'ValueError: All interval durations must be strictly positive',
+        'cause': 'C13-adjust-collapse: util.adjust_intervals keeps zero-duration rows when no estimated interval ends after t_min'},
+    ('chord', 'shape:est_ends_at_ref_start', 'overseg'): {
+        'call': 'mir_eval.chord.overseg(np.array([[2.0, 3.0], [3.0, 4.0]]), np.array([[2.0, 2.0], [2.0, 2.0], [2.0, 4.0]]))',
+        'observed': 'ValueError: All interval durations must be strictly positive',
+        'cause': 'C13-adjust-collapse: util.adjust_intervals keeps zero-duration rows when no estimated interval ends after t_min'},
+    ('chord', 'shape:est_ends_at_ref_start', 'seg'): {
+        'call': 'mir_eval.chord.seg(np.array([[2.0, 3.0], [3.0, 4.0]]), np.array([[2.0, 2.0], [2.0, 2.0], [2.0, 4.0]]))',
+        'observed': 'ValueError: All interval durations must be strictly positive',
+        'cause': 'C13-adjust-collapse: util.adjust_intervals keeps zero-duration rows when no estimated interval ends after t_min'},
+    ('chord', 'shape:est_ends_at_ref_start', 'underseg'): {
+        'call': 'mir_eval.chord.underseg(np.array([[2.0, 3.0], [3.0, 4.0]]), np.array([[2.0, 2.0], [2.0, 2.0], [2.0, 4.0]]))',
+        'observed': 'ValueError: All interval durations must be strictly positive',
+        'cause': 'C13-adjust-collapse: util.adjust_intervals keeps zero-duration rows when no estimated interval ends after t_min'},
+    ('chord', 'shape:est_wholly_before', 'directional_hamming_distance'): {
+        'call': 'mir_eval.chord.directional_hamming_distance(np.array([[5.0, 6.0], [6.0, 7.0]]), np.array([[5.0, 5.0], [5.0, 5.0], [5.0, 7.0]]))',
+        'observed': 'ValueError: All interval durations must be strictly positive',
+        'cause': 'C13-adjust-collapse: util.adjust_intervals keeps zero-duration rows when no estimated interval ends after t_min'},
+    ('chord', 'shape:est_wholly_before', 'evaluate'): {
+        'call': "mir_eval.chord.evaluate(np.array([[5.0, 6.0], [6.0, 7.0]]), ['C', 'G'], np.array([[0.0, 1.0], [1.0, 2.0]]), ['C', 'G'])",
+        'observed': 'ValueError: All interval durations must be strictly positive',
+        'cause': 'C13-adjust-collapse: util.adjust_intervals keeps zero-duration rows when no estimated interval ends after t_min'},
+    ('chord', 'shape:est_wholly_before', 'overseg'): {
+        'call': 'mir_eval.chord.overseg(np.array([[5.0, 6.0], [6.0, 7.0]]), np.array([[5.0, 5.0], [5.0, 5.0], [5.0, 7.0]]))',
+        'observed': 'ValueError: All interval durations must be strictly positive',
+        'cause': 'C13-adjust-collapse: util.adjust_intervals keeps zero-duration rows when no estimated interval ends after t_min'},
+    ('chord', 'shape:est_wholly_before', 'seg'): {
+        'call': 'mir_eval.chord.seg(np.array([[5.0, 6.0], [6.0, 7.0]]), np.array([[5.0, 5.0], [5.0, 5.0], [5.0, 7.0]]))',
+        'observed': 'ValueError: All interval durations must be strictly positive',
+        'cause': 'C13-adjust-collapse: util.adjust_intervals keeps zero-duration rows when no estimated interval ends after t_min'},
+    ('chord', 'shape:est_wholly_before', 'underseg'): {
+        'call': 'mir_eval.chord.underseg(np.array([[5.0, 6.0], [6.0, 7.0]]), np.array([[5.0, 5.0], [5.0, 5.0], [5.0, 7.0]]))',
+        'observed': 'ValueError: All interval durations must be strictly positive',
+        'cause': 'C13-adjust-collapse: util.adjust_intervals keeps zero-duration rows when no estimated interval ends after t_min'},
+    ('hierarchy', 'fault:est_level_ends_later_than_top', 'evaluate'): {
+        'call': "mir_eval.hierarchy.evaluate([np.array([[0.0, 6.0]])], [['b']], [np.array([[0.0, 6.0]]), np.array([[0.0, 1.0], [1.0, 6.5]])], [['x'], ['A', 'Chorus']])",
+        'observed': "returned {'T-Precision reduced': np.float64(0.0), 'T-Recall reduced': 0.0, 'T-Measure reduced': 0.0, 'T-Precision full': np.float64(0.0), 'T-Recall full': 0.0, 'T-Measure full': 0.0, 'L-Precision': np",
+        'cause': 'evaluate() crops / pads the annotations (util.adjust_intervals) BEFORE any validator runs: the fault is cut away or re-labelled instead of rejected'},
+    ('hierarchy', 'fault:est_level_not_starting_at_0', 'evaluate'): {
+        'call': "mir_eval.hierarchy.evaluate([np.array([[0.0, 6.0]])], [['b']], [np.array([[0.0, 6.0]]), np.array([[0.5, 1.5], [1.5, 6.5]])], [['x'], ['A', 'Chorus']])",
+        'observed': "returned {'T-Precision reduced': np.float64(0.0), 'T-Recall reduced': 0.0, 'T-Measure reduced': 0.0, 'T-Precision full': np.float64(0.0), 'T-Recall full': 0.0, 'T-Measure full': 0.0, 'L-Precision': np",
+        'cause': 'evaluate() crops / pads the annotations (util.adjust_intervals) BEFORE any validator runs: the fault is cut away or re-labelled instead of rejected'},
+    ('hierarchy', 'fault:est_more_labels', 'evaluate'): {
+        'call': "mir_eval.hierarchy.evaluate([np.array([[0.0, 6.0]])], [['b']], [np.array([[0.0, 6.0]]), np.array([[0.0, 1.0], [1.0, 6.0]])], [['x'], ['A', 'Chorus', 'z']])",
+        'observed': 'IndexError: index 2 is out of bounds for axis 0 with size 2',
+        'cause': 'evaluate() preprocesses (util.adjust_intervals / _align_intervals index intervals[:, 1] and labels) BEFORE util.validate_intervals runs'},
+    ('hierarchy', 'fault:est_more_labels', 'lmeasure'): {
+        'call': "mir_eval.hierarchy.lmeasure([np.array([[0.0, 6.0]])], [['b']], [np.array([[0.0, 6.0]]), np.array([[0.0, 1.0], [1.0, 6.0]])], [['x'], ['A', 'Chorus', 'z']])",
+        'observed': 'IndexError: index 2 is out of bounds for axis 0 with size 2',
+        'cause': 'lmeasure validates intervals with generated labels; the supplied label lists are never compared with the intervals'},
+    ('hierarchy', 'fault:est_negative_duration', 'evaluate'): {
+        'call': "mir_eval.hierarchy.evaluate([np.array([[0.0, 6.0]])], [['b']], [np.array([[0.0, 6.0]]), np.array([[0.0, 1.0], [6.0, 1.0]])], [['x'], ['A', 'Chorus']])",
+        'observed': "returned {'T-Precision reduced': np.float64(0.0), 'T-Recall reduced': 0.0, 'T-Measure reduced': 0.0, 'T-Precision full': np.float64(0.0), 'T-Recall full': 0.0, 'T-Measure full': 0.0, 'L-Precision': np",
+        'cause': 'evaluate() crops / pads the annotations (util.adjust_intervals) BEFORE any validator runs: the fault is cut away or re-labelled instead of rejected'},
+    ('hierarchy', 'fault:est_negative_time', 'evaluate'): {
+        'call': "mir_eval.hierarchy.evaluate([np.array([[0.0, 6.0]])], [['b']], [np.array([[0.0, 6.0]]), np.array([[-0.5, 1.0], [1.0, 6.0]])], [['x'], ['A', 'Chorus']])",
+        'observed': "returned {'T-Precision reduced': np.float64(0.0), 'T-Recall reduced': 0.0, 'T-Measure reduced': 0.0, 'T-Precision full': np.float64(0.0), 'T-Recall full': 0.0, 'T-Measure full': 0.0, 'L-Precision': np",
+        'cause': 'evaluate() crops / pads the annotations (util.adjust_intervals) BEFORE any validator runs: the fault is cut away or re-labelled instead of rejected'},
+    ('hierarchy', 'fault:est_top_negative_time', 'evaluate'): {
+        'call': "mir_eval.hierarchy.evaluate([np.array([[0.0, 6.0]])], [['b']], [np.array([[-0.5, 6.0]]), np.array([[0.0, 1.0], [1.0, 6.0]])], [['x'], ['A', 'Chorus']])",
+        'observed': "returned {'T-Precision reduced': np.float64(0.0), 'T-Recall reduced': 0.0, 'T-Measure reduced': 0.0, 'T-Precision full': np.float64(0.0), 'T-Recall full': 0.0, 'T-Measure full': 0.0, 'L-Precision': np",
+        'cause': 'evaluate() crops / pads the annotations (util.adjust_intervals) BEFORE any validator runs: the fault is cut away or re-labelled instead of rejected'},
+    ('hierarchy', 'fault:est_top_not_starting_at_0', 'evaluate'): {
+        'call': "mir_eval.hierarchy.evaluate([np.array([[0.0, 6.0]])], [['b']], [np.array([[0.5, 6.5]]), np.array([[0.5, 1.5], [1.5, 6.5]])], [['x'], ['A', 'Chorus']])",
+        'observed': "returned {'T-Precision reduced': np.float64(0.0), 'T-Recall reduced': 0.0, 'T-Measure reduced': 0.0, 'T-Precision full': np.float64(0.0), 'T-Recall full': 0.0, 'T-Measure full': 0.0, 'L-Precision': np",
+        'cause': 'evaluate() crops / pads the annotations (util.adjust_intervals) BEFORE any validator runs: the fault is cut away or re-labelled instead of rejected'},
+    ('hierarchy', 'fault:est_top_zero_duration', 'evaluate'): {
+        'call': "mir_eval.hierarchy.evaluate([np.array([[0.0, 1.0], [1.0, 8.0]])], [['x', 'a']], [np.array([[0.0, 0.0], [0.5, 1.5], [1.5, 6.0], [6.0, 7.5], [7.5, 8.0]]), np.array([[0.0, 8.0]])], [['c', 'c', 'chorus', 'A', 'verse'], ['a']])",
+        'observed': "returned {'T-Precision reduced': 0.0, 'T-Recall reduced': np.float64(0.0), 'T-Measure reduced': 0.0, 'T-Precision full': 0.0, 'T-Recall full': np.float64(0.0), 'T-Measure full': 0.0, 'L-Precision': 0.",
+        'cause': 'evaluate() crops / pads the annotations (util.adjust_intervals) BEFORE any validator runs: the fault is cut away or re-labelled instead of rejected'},
+    ('hierarchy', 'fault:est_top_zero_duration', 'lmeasure'): {
+        'call': "mir_eval.hierarchy.lmeasure([np.array([[0.0, 8.0]])], [['b']], [np.array([[0.0, 0.0], [6.0, 8.0]])], [['x', 'x']])",
+        'observed': 'returned (np.float64(0.0), 0.0, 0.0)',
+        'cause': 'validate_hier_intervals never examines a single-level hierarchy (the top level is only checked against deeper levels)'},
+    ('hierarchy', 'fault:est_top_zero_duration', 'tmeasure'): {
+        'call': 'mir_eval.hierarchy.tmeasure([np.array([[0.0, 0.5], [0.5, 2.0], [2.0, 6.0]])], [np.array([[0.0, 0.0], [1.5, 6.0]])])',
+        'observed': 'returned (np.float64(0.7907647907647907), np.float64(0.501755158311804), np.float64(0.613948454816577))',
+        'cause': 'validate_hier_intervals never examines a single-level hierarchy (the top level is only checked against deeper levels)'},
+    ('hierarchy', 'fault:est_zero_duration', 'evaluate'): {
+        'call': "mir_eval.hierarchy.evaluate([np.array([[0.0, 6.0]])], [['b']], [np.array([[0.0, 6.0]]), np.array([[0.0, 0.0], [1.0, 6.0]])], [['x'], ['A', 'Chorus']])",
+        'observed': "returned {'T-Precision reduced': np.float64(0.0), 'T-Recall reduced': 0.0, 'T-Measure reduced': 0.0, 'T-Precision full': np.float64(0.0), 'T-Recall full': 0.0, 'T-Measure full': 0.0, 'L-Precision': np",
+        'cause': 'evaluate() crops / pads the annotations (util.adjust_intervals) BEFORE any validator runs: the fault is cut away or re-labelled instead of rejected'},
+    ('hierarchy', 'fault:ref_fewer_label_levels', 'evaluate'): {
+        'call': "mir_eval.hierarchy.evaluate([np.array([[0.0, 8.0]]), np.array([[0.0, 1.0], [1.0, 3.5], [3.5, 5.5], [5.5, 7.0], [7.0, 8.0]])], [['chorus']], [np.array([[0.0, 2.5], [2.5, 8.0]]), np.array([[0.0, 6.5], [6.5, 8.0]])], [['c', 'c'], ['c', 'A']])",
+        'observed': "returned {'T-Precision reduced': np.float64(0.0), 'T-Recall reduced': 0.0, 'T-Measure reduced': 0.0, 'T-Precision full': np.float64(0.0), 'T-Recall full': 0.0, 'T-Measure full': 0.0, 'L-Precision': np",
+        'cause': 'evaluate() crops / pads the annotations (util.adjust_intervals) BEFORE any validator runs: the fault is cut away or re-labelled instead of rejected'},
+    ('hierarchy', 'fault:ref_fewer_label_levels', 'lmeasure'): {
+        'call': "mir_eval.hierarchy.lmeasure([np.array([[0.0, 8.0]]), np.array([[0.0, 1.0], [1.0, 3.5], [3.5, 5.5], [5.5, 7.0], [7.0, 8.0]])], [['chorus']], [np.array([[0.0, 2.5], [2.5, 8.0]]), np.array([[0.0, 6.5], [6.5, 8.0]])], [['c', 'c'], ['c', 'A']])",
+        'observed': 'returned (np.float64(0.0), 0.0, 0.0)',
+        'cause': 'lmeasure validates intervals with generated labels; the supplied label lists are never compared with the intervals'},
+    ('hierarchy', 'fault:ref_fewer_labels', 'evaluate'): {
+        'call': "mir_eval.hierarchy.evaluate([np.array([[0.0, 6.0]])], [[]], [np.array([[0.0, 6.0]]), np.array([[0.0, 1.0], [1.0, 6.0]])], [['x'], ['A', 'Chorus']])",
+        'observed': "returned {'T-Precision reduced': np.float64(0.0), 'T-Recall reduced': 0.0, 'T-Measure reduced': 0.0, 'T-Precision full': np.float64(0.0), 'T-Recall full': 0.0, 'T-Measure full': 0.0, 'L-Precision': np",
+        'cause': 'evaluate() crops / pads the annotations (util.adjust_intervals) BEFORE any validator runs: the fault is cut away or re-labelled instead of rejected'},
+    ('hierarchy', 'fault:ref_fewer_labels', 'lmeasure'): {
+        'call': "mir_eval.hierarchy.lmeasure([np.array([[0.0, 6.0]])], [[]], [np.array([[0.0, 6.0]]), np.array([[0.0, 1.0], [1.0, 6.0]])], [['x'], ['A', 'Chorus']])",
+        'observed': 'returned (np.float64(0.0), 0.0, 0.0)',
+        'cause': 'lmeasure validates intervals with generated labels; the supplied label lists are never compared with the intervals'},
+    ('hierarchy', 'fault:ref_negative_duration', 'evaluate'): {
+        'call': "mir_eval.hierarchy.evaluate([np.array([[0.0, 6.0]]), np.array([[0.0, 0.5], [0.5, 4.5], [4.5, 6.0]]), np.array([[5.0, 0.0], [5.0, 6.0]])], [['verse'], ['Chorus', 'a', 'x'], ['A', 'chorus']], [np.array([[0.0, 4.5], [4.5, 6.0]])], [['verse', 'b']])",
+        'observed': "returned {'T-Precision reduced': np.float64(0.666666666666667), 'T-Recall reduced': np.float64(0.5534591194968553), 'T-Measure reduced': np.float64(0.6048109965635741), 'T-Precision full': np.float64(",
+        'cause': 'evaluate() crops / pads the annotations (util.adjust_intervals) BEFORE any validator runs: the fault is cut away or re-labelled instead of rejected'},
+    ('hierarchy', 'fault:ref_negative_time', 'evaluate'): {
+        'call': "mir_eval.hierarchy.evaluate([np.array([[0.0, 8.0]]), np.array([[-0.5, 1.0], [1.0, 3.5], [3.5, 5.5], [5.5, 7.0], [7.0, 8.0]])], [['chorus'], ['a', 'a', 'c', 'A', 'x']], [np.array([[0.0, 2.5], [2.5, 8.0]]), np.array([[0.0, 6.5], [6.5, 8.0]])], [['c', 'c'], ['c', 'A']])",
+        'observed': "returned {'T-Precision reduced': np.float64(0.2608414976836028), 'T-Recall reduced': np.float64(0.3390155835117149), 'T-Measure reduced': np.float64(0.29483467083547865), 'T-Precision full': np.float6",
+        'cause': 'evaluate() crops / pads the annotations (util.adjust_intervals) BEFORE any validator runs: the fault is cut away or re-labelled instead of rejected'},
+    ('hierarchy', 'fault:ref_top_negative_time', 'evaluate'): {
+        'call': "mir_eval.hierarchy.evaluate([np.array([[-0.5, 6.0]])], [['b']], [np.array([[0.0, 6.0]]), np.array([[0.0, 1.0], [1.0, 6.0]])], [['x'], ['A', 'Chorus']])",
+        'observed': "returned {'T-Precision reduced': np.float64(0.0), 'T-Recall reduced': 0.0, 'T-Measure reduced': 0.0, 'T-Precision full': np.float64(0.0), 'T-Recall full': 0.0, 'T-Measure full': 0.0, 'L-Precision': np",
+        'cause': 'evaluate() crops / pads the annotations (util.adjust_intervals) BEFORE any validator runs: the fault is cut away or re-labelled instead of rejected'},
+    ('hierarchy', 'fault:ref_top_not_starting_at_0', 'evaluate'): {
+        'call': "mir_eval.hierarchy.evaluate([np.array([[0.5, 6.5]])], [['b']], [np.array([[0.0, 6.0]]), np.array([[0.0, 1.0], [1.0, 6.0]])], [['x'], ['A', 'Chorus']])",
+        'observed': "returned {'T-Precision reduced': np.float64(0.35741840638262473), 'T-Recall reduced': np.float64(0.7114230225988697), 'T-Measure reduced': np.float64(0.4757968321708841), 'T-Precision full': np.float6",
+        'cause': 'evaluate() crops / pads the annotations (util.adjust_intervals) BEFORE any validator runs: the fault is cut away or re-labelled instead of rejected'},
+    ('hierarchy', 'fault:ref_top_zero_duration', 'evaluate'): {
+        'call': "mir_eval.hierarchy.evaluate([np.array([[0.0, 1.0], [1.0, 1.0]])], [['x', 'a']], [np.array([[0.0, 0.5], [0.5, 1.5], [1.5, 6.0], [6.0, 7.5], [7.5, 8.0]]), np.array([[0.0, 8.0]])], [['c', 'c', 'chorus', 'A', 'verse'], ['a']])",
+        'observed': "returned {'T-Precision reduced': 0.0, 'T-Recall reduced': 0.0, 'T-Measure reduced': 0.0, 'T-Precision full': 0.0, 'T-Recall full': 0.0, 'T-Measure full': 0.0, 'L-Precision': 0.0, 'L-Recall': 0.0, 'L-M",
+        'cause': 'evaluate() crops / pads the annotations (util.adjust_intervals) BEFORE any validator runs: the fault is cut away or re-labelled instead of rejected'},
+    ('hierarchy', 'fault:ref_top_zero_duration', 'lmeasure'): {
+        'call': "mir_eval.hierarchy.lmeasure([np.array([[0.0, 0.5], [0.5, 0.5], [2.0, 6.0]])], [['verse', 'x', 'x']], [np.array([[0.0, 1.5], [1.5, 6.0]])], [['Chorus', 'b']])",
+        'observed': 'returned (np.float64(0.6165698708071589), np.float64(0.7442366246193994), np.float64(0.6744145931603605))',
+        'cause': 'validate_hier_intervals never examines a single-level hierarchy (the top level is only checked against deeper levels)'},
+    ('hierarchy', 'fault:ref_top_zero_duration', 'tmeasure'): {
+        'call': 'mir_eval.hierarchy.tmeasure([np.array([[0.0, 0.5], [0.5, 0.5], [2.0, 6.0]])], [np.array([[0.0, 1.5], [1.5, 6.0]])])',
+        'observed': 'returned (np.float64(0.6165698708071589), np.float64(0.7442366246193994), np.float64(0.6744145931603605))',
+        'cause': 'validate_hier_intervals never examines a single-level hierarchy (the top level is only checked against deeper levels)'},
+    ('hierarchy', 'fault:ref_zero_duration', 'evaluate'): {
+        'call': "mir_eval.hierarchy.evaluate([np.array([[0.0, 0.5], [0.5, 1.5], [1.5, 6.0]]), np.array([[0.0, 0.0], [1.0, 5.0], [5.0, 6.0]])], [['chorus', 'c', 'a'], ['a', 'c', 'c']], [np.array([[0.0, 3.5], [3.5, 6.0]]), np.array([[0.0, 6.0]]), np.array([[0.0, 1.5], [1.5, 5.0], [5.0, 6.0]])], [['b', 'a'], ['x'], ['verse', 'Chorus', 'verse']])",
+        'observed': "returned {'T-Precision reduced': np.float64(0.7786288570186878), 'T-Recall reduced': np.float64(0.6162434434583732), 'T-Measure reduced': np.float64(0.6879840224243443), 'T-Precision full': np.float64",
+        'cause': 'evaluate() crops / pads the annotations (util.adjust_intervals) BEFORE any validator runs: the fault is cut away or re-labelled instead of rejected'},
+    ('melody', 'fault:est_more_freqs_than_times', 'evaluate'): {
+        'call': 'mir_eval.melody.evaluate(np.array([0.0, 0.125, 0.25, 0.375, 0.5, 0.625, 0.75, 0.875, 1.0, 1.125, 1.25, 1.375, 1.5, 1.625, 1.75, 1.875]), np.array([880.0, 880.0, 440.0, 220.0, 233.0, 440.0, 233.0, 0.0, 440.0, 0.0, 220.0, 233.0, 0.0, 220.0, 110.0, 220.0]), np.array([0.0, 0.125, 0.25, 0.375, 0.5, 0.625, 0.75, 0.875, 1.0, 1.125, 1.25, 1.375, 1.5, 1.625, 1.75, 1.875]), np.array([220.0, 110.0, 0.0, 110.0, 220.0, 466.0, 880.0, -220.0, -220.0, 0.0, 233.0, -440.0, 233.0, 440.0, -440.0, 220.0, 220.0]))',
+        'observed': "returned {'Voicing Recall': np.float64(0.6923076923076923), 'Voicing False Alarm': np.float64(0.3333333333333333), 'Raw Pitch Accuracy': np.float64(0.07692307692307693), 'Raw Chroma Accuracy': np.floa",
+        'cause': 'melody.evaluate has no validator for times / lengths / est_voicing / ref_reward; resampling absorbs the fault'},
+    ('melody', 'fault:est_time_unsorted', 'evaluate'): {
+        'call': 'mir_eval.melody.evaluate(np.array([0.0, 0.25, 0.5, 0.75, 1.0]), np.array([220.0, 220.0, 220.0, 220.0, 0.0]), np.array([1.0, 0.75, 0.5]), np.array([220.0, 220.0, 0.0]))',
+        'observed': "returned {'Voicing Recall': np.float64(0.75), 'Voicing False Alarm': np.float64(1.0), 'Raw Pitch Accuracy': np.float64(0.75), 'Raw Chroma Accuracy': np.float64(0.75), 'Overall Accuracy': np.float64(0.",
+        'cause': 'melody.evaluate has no validator for times / lengths / est_voicing / ref_reward; resampling absorbs the fault'},
+    ('melody', 'fault:est_voicing_above_1', 'voicing_false_alarm'): {
+        'call': 'mir_eval.melody.voicing_false_alarm(np.array([1.0, 1.0, 1.0, 1.0, 0.0, 1.0, 0.0, 1.0]), np.array([1.5, 1.0, 0.0, 0.0, 0.0, 0.0, 0.0, 0.0]))',
+        'observed': 'returned np.float64(0.0)',
+        'cause': 'voicing_recall / voicing_false_alarm never call validate_voicing (only voicing_measures does)'},
+    ('melody', 'fault:est_voicing_above_1', 'voicing_recall'): {
+        'call': 'mir_eval.melody.voicing_recall(np.array([1.0, 1.0, 1.0, 1.0, 0.0, 1.0, 0.0, 1.0]), np.array([1.5, 1.0, 0.0, 0.0, 0.0, 0.0, 0.0, 0.0]))',
+        'observed': 'returned np.float64(0.4166666666666667)',
+        'cause': 'voicing_recall / voicing_false_alarm never call validate_voicing (only voicing_measures does)'},
+    ('melody', 'fault:est_voicing_kw_above_1', 'evaluate'): {
+        'call': 'mir_eval.melody.evaluate(np.array([0.0, 0.25, 0.5]), np.array([0.0, 0.0, 0.0]), np.array([0.0, 0.25, 0.5]), np.array([0.0, 0.0, 0.0]), est_voicing=np.array([1.5, 1.5, 1.5]))',
+        'observed': "returned {'Voicing Recall': 1, 'Voicing False Alarm': np.float64(0.0), 'Raw Pitch Accuracy': 0.0, 'Raw Chroma Accuracy': 0.0, 'Overall Accuracy': np.float64(1.0)}",
+        'cause': 'melody.evaluate has no validator for times / lengths / est_voicing / ref_reward; resampling absorbs the fault'},
+    ('melody', 'fault:est_voicing_kw_negative', 'evaluate'): {
+        'call': 'mir_eval.melody.evaluate(np.array([0.0, 0.25, 0.5]), np.array([0.0, 0.0, 0.0]), np.array([0.0, 0.25, 0.5]), np.array([0.0, 0.0, 0.0]), est_voicing=np.array([-0.5, -0.5, -0.5]))',
+        'observed': "returned {'Voicing Recall': 1, 'Voicing False Alarm': np.float64(0.0), 'Raw Pitch Accuracy': 0.0, 'Raw Chroma Accuracy': 0.0, 'Overall Accuracy': np.float64(1.0)}",
+        'cause': 'melody.evaluate has no validator for times / lengths / est_voicing / ref_reward; resampling absorbs the fault'},
+    ('melody', 'fault:est_voicing_kw_wrong_length', 'evaluate'): {
+        'call': 'mir_eval.melody.evaluate(np.array([0.0, 0.125, 0.25, 0.375, 0.5, 0.625, 0.75, 0.875]), np.array([440.0, 440.0, 880.0, 440.0, 0.0, 880.0, 0.0, 880.0]), np.array([0.0, 0.0625, 0.125, 0.1875, 0.25]), np.array([233.0, 233.0, 440.0, 880.0, -440.0]), est_voicing=np.array([1.0, 1.0, 1.0, 1.0, 1.0, 1.0]))',
+        'observed': 'IndexError: boolean index did not match indexed array along axis 0; size of axis is 6 but size of corresponding boolean axis is 5',
+        'cause': 'melody.evaluate has no validator for times / lengths / est_voicing / ref_reward; resampling absorbs the fault'},
+    ('melody', 'fault:est_voicing_negative', 'voicing_false_alarm'): {
+        'call': 'mir_eval.melody.voicing_false_alarm(np.array([1.0, 1.0, 1.0, 1.0, 0.0, 1.0, 0.0, 1.0]), np.array([1.0, 1.0, 0.0, -0.5, 0.0, 0.0, 0.0, 0.0]))',
+        'observed': 'returned np.float64(0.0)',
+        'cause': 'voicing_recall / voicing_false_alarm never call validate_voicing (only voicing_measures does)'},
+    ('melody', 'fault:est_voicing_negative', 'voicing_recall'): {
+        'call': 'mir_eval.melody.voicing_recall(np.array([1.0, 1.0, 1.0, 1.0, 0.0, 1.0, 0.0, 1.0]), np.array([1.0, 1.0, 0.0, -0.5, 0.0, 0.0, 0.0, 0.0]))',
+        'observed': 'returned np.float64(0.25)',
+        'cause': 'voicing_recall / voicing_false_alarm never call validate_voicing (only voicing_measures does)'},
+    ('melody', 'fault:ref_more_times_than_freqs', 'evaluate'): {
+        'call': 'mir_eval.melody.evaluate(np.array([0.0, 0.125, 0.25, 0.375, 0.5, 0.625, 0.75, 0.875, 1.0]), np.array([440.0, 440.0, 880.0, 440.0, 0.0, 880.0, 0.0, 880.0]), np.array([0.0, 0.0625, 0.125, 0.1875, 0.25]), np.array([233.0, 233.0, 440.0, 880.0, -440.0]))',
+        'observed': "returned {'Voicing Recall': np.float64(0.3333333333333333), 'Voicing False Alarm': np.float64(0.0), 'Raw Pitch Accuracy': np.float64(0.3333333333333333), 'Raw Chroma Accuracy': np.float64(0.8333333333",
+        'cause': 'melody.evaluate has no validator for times / lengths / est_voicing / ref_reward; resampling absorbs the fault'},
+    ('melody', 'fault:ref_reward_kw_above_1', 'evaluate'): {
+        'call': 'mir_eval.melody.evaluate(np.array([0.0, 0.25, 0.5]), np.array([0.0, 0.0, 0.0]), np.array([0.0, 0.25, 0.5]), np.array([0.0, 0.0, 0.0]), ref_reward=np.array([1.5, 1.5, 1.5]))',
+        'observed': "returned {'Voicing Recall': 1, 'Voicing False Alarm': np.float64(0.0), 'Raw Pitch Accuracy': 0.0, 'Raw Chroma Accuracy': 0.0, 'Overall Accuracy': np.float64(1.0)}",
+        'cause': 'melody.evaluate has no validator for times / lengths / est_voicing / ref_reward; resampling absorbs the fault'},
+    ('melody', 'fault:ref_time_unsorted', 'evaluate'): {
+        'call': 'mir_eval.melody.evaluate(np.array([0.875, 0.75, 0.625, 0.5, 0.375, 0.25, 0.125, 0.0]), np.array([440.0, 440.0, 880.0, 440.0, 0.0, 880.0, 0.0, 880.0]), np.array([0.0, 0.0625, 0.125, 0.1875, 0.25]), np.array([233.0, 233.0, 440.0, 880.0, -440.0]))',
+        'observed': "returned {'Voicing Recall': np.float64(0.2857142857142857), 'Voicing False Alarm': np.float64(0.5), 'Raw Pitch Accuracy': np.float64(0.2857142857142857), 'Raw Chroma Accuracy': np.float64(0.5714285714",
+        'cause': 'melody.evaluate has no validator for times / lengths / est_voicing / ref_reward; resampling absorbs the fault'},
+    ('melody', 'fault:ref_voicing_above_1', 'voicing_false_alarm'): {
+        'call': 'mir_eval.melody.voicing_false_alarm(np.array([1.0, 1.0, 1.0, 1.5, 0.0, 1.0, 0.0, 1.0]), np.array([1.0, 1.0, 0.0, 0.0, 0.0, 0.0, 0.0, 0.0]))',
+        'observed': 'returned np.float64(0.0)',
+        'cause': 'voicing_recall / voicing_false_alarm never call validate_voicing (only voicing_measures does)'},
+    ('melody', 'fault:ref_voicing_above_1', 'voicing_recall'): {
+        'call': 'mir_eval.melody.voicing_recall(np.array([1.0, 1.0, 1.0, 1.5, 0.0, 1.0, 0.0, 1.0]), np.array([1.0, 1.0, 0.0, 0.0, 0.0, 0.0, 0.0, 0.0]))',
+        'observed': 'returned np.float64(0.3333333333333333)',
+        'cause': 'voicing_recall / voicing_false_alarm never call validate_voicing (only voicing_measures does)'},
+    ('melody', 'fault:ref_voicing_negative', 'voicing_false_alarm'): {
+        'call': 'mir_eval.melody.voicing_false_alarm(np.array([1.0, 1.0, 1.0, 1.0, -0.5, 1.0, 0.0, 1.0]), np.array([1.0, 1.0, 0.0, 0.0, 0.0, 0.0, 0.0, 0.0]))',
+        'observed': 'returned np.float64(0.0)',
+        'cause': 'voicing_recall / voicing_false_alarm never call validate_voicing (only voicing_measures does)'},
+    ('melody', 'fault:ref_voicing_negative', 'voicing_recall'): {
+        'call': 'mir_eval.melody.voicing_recall(np.array([1.0, 1.0, 1.0, 1.0, -0.5, 1.0, 0.0, 1.0]), np.array([1.0, 1.0, 0.0, 0.0, 0.0, 0.0, 0.0, 0.0]))',
+        'observed': 'returned np.float64(0.3333333333333333)',
+        'cause': 'voicing_recall / voicing_false_alarm never call validate_voicing (only voicing_measures does)'},
+    ('melody', 'fault:voicing_unequal_est_longer', 'voicing_false_alarm'): {
+        'call': 'mir_eval.melody.voicing_false_alarm(np.array([1.0, 1.0]), np.array([1.0, 1.0, 1.0]))',
+        'observed': 'returned 0',
+        'cause': 'voicing_recall / voicing_false_alarm never call validate_voicing (only voicing_measures does)'},
+    ('melody', 'fault:voicing_unequal_est_longer', 'voicing_recall'): {
+        'call': 'mir_eval.melody.voicing_recall(np.array([0.0, 0.0]), np.array([1.0, 1.0, 1.0]))',
+        'observed': 'returned 1',
+        'cause': 'voicing_recall / voicing_false_alarm never call validate_voicing (only voicing_measures does)'},
+    ('melody', 'fault:voicing_unequal_est_shorter', 'voicing_false_alarm'): {
+        'call': 'mir_eval.melody.voicing_false_alarm(np.array([1.0, 1.0]), np.array([1.0]))',
+        'observed': 'returned 0',
+        'cause': 'voicing_recall / voicing_false_alarm never call validate_voicing (only voicing_measures does)'},
+    ('melody', 'fault:voicing_unequal_est_shorter', 'voicing_recall'): {
+        'call': 'mir_eval.melody.voicing_recall(np.array([1.0, 1.0]), np.array([1.0]))',
+        'observed': 'returned np.float64(1.0)',
+        'cause': 'voicing_recall / voicing_false_alarm never call validate_voicing (only voicing_measures does)'},
+    ('melody', 'shape:duplicate_est_times', 'evaluate'): {
+        'call': 'mir_eval.melody.evaluate(np.array([0.0, 0.25, 0.5, 0.75]), np.array([220.0, 220.0, 0.0, 0.0]), np.array([0.0, 0.25, 0.25, 0.5]), np.array([220.0, 220.0, 220.0, 0.0]))',
+        'observed': 'ValueError: Expect x to not have duplicates',
+        'cause': 'scipy interp1d rejects duplicate estimate times (no validator documents strictly increasing times)'},
+    ('melody', 'shape:duplicate_est_times', 'preprocess[cv]'): {
+        'call': "DERIVE['melody']['cv']([np.array([0.0, 0.25, 0.5, 0.75]), np.array([220.0, 220.0, 0.0, 0.0]), np.array([0.0, 0.25, 0.25, 0.5]), np.array([220.0, 220.0, 220.0, 0.0])])",
+        'observed': 'ValueError: Expect x to not have duplicates',
+        'cause': 'scipy interp1d rejects duplicate estimate times (no validator documents strictly increasing times)'},
+    ('melody', 'shape:duplicate_est_times', 'preprocess[v]'): {
+        'call': "DERIVE['melody']['v']([np.array([0.0, 0.25, 0.5, 0.75]), np.array([220.0, 220.0, 0.0, 0.0]), np.array([0.0, 0.25, 0.25, 0.5]), np.array([220.0, 220.0, 220.0, 0.0])])",
+        'observed': 'ValueError: Expect x to not have duplicates',
+        'cause': 'scipy interp1d rejects duplicate estimate times (no validator documents strictly increasing times)'},
+    ('melody', 'shape:empty_both', 'evaluate'): {
+        'call': 'mir_eval.melody.evaluate(np.zeros((0,)), np.zeros((0,)), np.zeros((0,)), np.zeros((0,)))',
+        'observed': 'IndexError: index 0 is out of bounds for axis 0 with size 0',
+        'cause': 'to_cent_voicing reads ref_time[0] / est_time[0]: the empty annotation the measures define a score for cannot pass evaluate()'},
+    ('melody', 'shape:empty_both', 'preprocess[cv]'): {
+        'call': "DERIVE['melody']['cv']([np.zeros((0,)), np.zeros((0,)), np.zeros((0,)), np.zeros((0,))])",
+        'observed': 'IndexError: index 0 is out of bounds for axis 0 with size 0',
+        'cause': 'to_cent_voicing reads ref_time[0] / est_time[0]: the empty annotation the measures define a score for cannot pass evaluate()'},
+    ('melody', 'shape:empty_both', 'preprocess[v]'): {
+        'call': "DERIVE['melody']['v']([np.zeros((0,)), np.zeros((0,)), np.zeros((0,)), np.zeros((0,))])",
+        'observed': 'IndexError: index 0 is out of bounds for axis 0 with size 0',
+        'cause': 'to_cent_voicing reads ref_time[0] / est_time[0]: the empty annotation the measures define a score for cannot pass evaluate()'},
+    ('melody', 'shape:empty_est', 'evaluate'): {
+        'call': 'mir_eval.melody.evaluate(np.array([0.0, 0.25, 0.5]), np.array([220.0, 220.0, 0.0]), np.zeros((0,)), np.zeros((0,)))',
+        'observed': 'IndexError: index 0 is out of bounds for axis 0 with size 0',
+        'cause': 'to_cent_voicing reads ref_time[0] / est_time[0]: the empty annotation the measures define a score for cannot pass evaluate()'},
+    ('melody', 'shape:empty_est', 'preprocess[cv]'): {
+        'call': "DERIVE['melody']['cv']([np.array([0.0, 0.25, 0.5]), np.array([220.0, 220.0, 0.0]), np.zeros((0,)), np.zeros((0,))])",
+        'observed': 'IndexError: index 0 is out of bounds for axis 0 with size 0',
+        'cause': 'to_cent_voicing reads ref_time[0] / est_time[0]: the empty annotation the measures define a score for cannot pass evaluate()'},
+    ('melody', 'shape:empty_est', 'preprocess[v]'): {
+        'call': "DERIVE['melody']['v']([np.array([0.0, 0.25, 0.5]), np.array([220.0, 220.0, 0.0]), np.zeros((0,)), np.zeros((0,))])",
+        'observed': 'IndexError: index 0 is out of bounds for axis 0 with size 0',
+        'cause': 'to_cent_voicing reads ref_time[0] / est_time[0]: the empty annotation the measures define a score for cannot pass evaluate()'},
+    ('melody', 'shape:empty_ref', 'evaluate'): {
+        'call': 'mir_eval.melody.evaluate(np.zeros((0,)), np.zeros((0,)), np.array([0.0, 0.25, 0.5]), np.array([220.0, 220.0, 0.0]))',
+        'observed': 'IndexError: index 0 is out of bounds for axis 0 with size 0',
+        'cause': 'to_cent_voicing reads ref_time[0] / est_time[0]: the empty annotation the measures define a score for cannot pass evaluate()'},
+    ('melody', 'shape:empty_ref', 'preprocess[cv]'): {
+        'call': "DERIVE['melody']['cv']([np.zeros((0,)), np.zeros((0,)), np.array([0.0, 0.25, 0.5]), np.array([220.0, 220.0, 0.0])])",
+        'observed': 'IndexError: index 0 is out of bounds for axis 0 with size 0',
+        'cause': 'to_cent_voicing reads ref_time[0] / est_time[0]: the empty annotation the measures define a score for cannot pass evaluate()'},
+    ('melody', 'shape:empty_ref', 'preprocess[v]'): {
+        'call': "DERIVE['melody']['v']([np.zeros((0,)), np.zeros((0,)), np.array([0.0, 0.25, 0.5]), np.array([220.0, 220.0, 0.0])])",
+        'observed': 'IndexError: index 0 is out of bounds for axis 0 with size 0',
+        'cause': 'to_cent_voicing reads ref_time[0] / est_time[0]: the empty annotation the measures define a score for cannot pass evaluate()'},
+    ('multipitch', 'fault:est_freq_negative', 'evaluate'): {
+        'call': 'mir_eval.multipitch.evaluate(np.array([0.0, 0.25]), [np.array([110.0, 440.0]), np.zeros((0,))], np.array([0.0, 0.25]), [np.array([-220.0]), np.zeros((0,))])',
+        'observed': "returned {'Precision': np.float64(0.0), 'Recall': np.float64(0.0), 'Accuracy': np.float64(0.0), 'Substitution Error': np.float64(0.5), 'Miss Error': np.float64(0.5), 'False Alarm Error': np.float64(0.",
+        'cause': 'C18-negative-frequencies: util.validate_frequencies(allow_negatives=False) bounds |f| only'},
+    ('multipitch', 'fault:est_freq_negative', 'metrics'): {
+        'call': 'mir_eval.multipitch.metrics(np.array([0.0, 0.25]), [np.array([110.0, 440.0]), np.zeros((0,))], np.array([0.0, 0.25]), [np.array([-220.0]), np.zeros((0,))])',
+        'observed': 'returned (np.float64(0.0), np.float64(0.0), np.float64(0.0), np.float64(0.5), np.float64(0.5), np.float64(0.0), np.float64(1.0), np.float64(0.0), np.float64(0.0), np.float64(0.0), np.float64(0.5), np.',
+        'cause': 'C18-negative-frequencies: util.validate_frequencies(allow_negatives=False) bounds |f| only'},
+    ('multipitch', 'fault:ref_freq_negative', 'evaluate'): {
+        'call': 'mir_eval.multipitch.evaluate(np.array([0.0, 0.25]), [np.array([110.0, 440.0, -220.0]), np.zeros((0,))], np.array([0.0, 0.25]), [np.zeros((0,)), np.zeros((0,))])',
+        'observed': "returned {'Precision': 0.0, 'Recall': np.float64(0.0), 'Accuracy': np.float64(0.0), 'Substitution Error': np.float64(0.0), 'Miss Error': np.float64(1.0), 'False Alarm Error': np.float64(0.0), 'Total E",
+        'cause': 'C18-negative-frequencies: util.validate_frequencies(allow_negatives=False) bounds |f| only'},
+    ('multipitch', 'fault:ref_freq_negative', 'metrics'): {
+        'call': 'mir_eval.multipitch.metrics(np.array([0.0, 0.25]), [np.array([110.0, 440.0, -220.0]), np.zeros((0,))], np.array([0.0, 0.25]), [np.zeros((0,)), np.zeros((0,))])',
+        'observed': 'returned (0.0, np.float64(0.0), np.float64(0.0), np.float64(0.0), np.float64(1.0), np.float64(0.0), np.float64(1.0), 0.0, np.float64(0.0), np.float64(0.0), np.float64(0.0), np.float64(1.0), np.float64',
+        'cause': 'C18-negative-frequencies: util.validate_frequencies(allow_negatives=False) bounds |f| only'},
+    ('segment', 'fault:est_1d', 'evaluate'): {
+        'call': "mir_eval.segment.evaluate(np.array([[0.0, 8.0]]), ['a'], np.array([0.0, 4.5, 4.5, 8.0]), ['chorus', 'Chorus'])",
+        'observed': 'IndexError: too many indices for array: array is 1-dimensional, but 2 were indexed',
+        'cause': 'evaluate() preprocesses (util.adjust_intervals / _align_intervals index intervals[:, 1] and labels) BEFORE util.validate_intervals runs'},
+    ('segment', 'fault:est_3d', 'evaluate'): {
+        'call': "mir_eval.segment.evaluate(np.array([[0.0, 8.0]]), ['A'], np.array([[[0.0, 8.0]]]), ['A'])",
+        'observed': 'IndexError: index 1 is out of bounds for axis 1 with size 1',
+        'cause': 'evaluate() preprocesses (util.adjust_intervals / _align_intervals index intervals[:, 1] and labels) BEFORE util.validate_intervals runs'},
+    ('segment', 'fault:est_fewer_labels', 'evaluate'): {
+        'call': "mir_eval.segment.evaluate(np.array([[0.0, 1.5], [1.5, 7.5], [7.5, 8.0]]), ['b', 'b', 'c'], np.array([[0.0, 9.0], [9.0, 10.0]]), ['b'])",
+        'observed': "returned {'Precision@0.5': 1.0, 'Recall@0.5': 0.5, 'F-measure@0.5': 0.6666666666666666, 'Precision@3.0': 1.0, 'Recall@3.0': 0.5, 'F-measure@3.0': 0.6666666666666666, 'Ref-to-est deviation': np.float64",
+        'cause': 'evaluate() crops / pads the annotations (util.adjust_intervals) BEFORE any validator runs: the fault is cut away or re-labelled instead of rejected'},
+    ('segment', 'fault:est_more_labels', 'evaluate'): {
+        'call': "mir_eval.segment.evaluate(np.array([[0.0, 1.5], [1.5, 7.5], [7.5, 8.0]]), ['b', 'b', 'c'], np.array([[0.0, 9.0], [9.0, 10.0]]), ['b', 'A', 'z'])",
+        'observed': "returned {'Precision@0.5': 1.0, 'Recall@0.5': 0.5, 'F-measure@0.5': 0.6666666666666666, 'Precision@3.0': 1.0, 'Recall@3.0': 0.5, 'F-measure@3.0': 0.6666666666666666, 'Ref-to-est deviation': np.float64",
+        'cause': 'evaluate() crops / pads the annotations (util.adjust_intervals) BEFORE any validator runs: the fault is cut away or re-labelled instead of rejected'},
+    ('segment', 'fault:est_n_by_1', 'evaluate'): {
+        'call': "mir_eval.segment.evaluate(np.array([[0.0, 8.0]]), ['a'], np.array([[0.0], [4.5]]), ['chorus', 'Chorus'])",
+        'observed': 'IndexError: index 1 is out of bounds for axis 1 with size 1',
+        'cause': 'evaluate() preprocesses (util.adjust_intervals / _align_intervals index intervals[:, 1] and labels) BEFORE util.validate_intervals runs'},
+    ('segment', 'fault:est_n_by_3', 'evaluate'): {
+        'call': "mir_eval.segment.evaluate(np.array([[0.0, 2.0], [2.0, 4.0]]), ['a', 'b'], np.zeros((0, 3)), [])",
+        'observed': "returned {'Precision@0.5': 1.0, 'Recall@0.5': 0.6666666666666666, 'F-measure@0.5': 0.8, 'Precision@3.0': 1.0, 'Recall@3.0': 0.6666666666666666, 'F-measure@3.0': 0.8, 'Ref-to-est deviation': np.float64",
+        'cause': 'evaluate() crops / pads the annotations (util.adjust_intervals) BEFORE any validator runs: the fault is cut away or re-labelled instead of rejected'},
+    ('segment', 'fault:est_negative_duration', 'evaluate'): {
+        'call': "mir_eval.segment.evaluate(np.array([[0.0, 8.0]]), ['a'], np.array([[0.0, 4.5], [8.0, 4.5]]), ['chorus', 'Chorus'])",
+        'observed': "returned {'Precision@0.5': 0.6666666666666666, 'Recall@0.5': 1.0, 'F-measure@0.5': 0.8, 'Precision@3.0': 0.6666666666666666, 'Recall@3.0': 1.0, 'F-measure@3.0': 0.8, 'Ref-to-est deviation': np.float64",
+        'cause': 'evaluate() crops / pads the annotations (util.adjust_intervals) BEFORE any validator runs: the fault is cut away or re-labelled instead of rejected'},
+    ('segment', 'fault:est_negative_time', 'evaluate'): {
+        'call': "mir_eval.segment.evaluate(np.array([[0.0, 8.0]]), ['a'], np.array([[-0.5, 4.5], [4.5, 8.0]]), ['chorus', 'Chorus'])",
+        'observed': "returned {'Precision@0.5': 0.6666666666666666, 'Recall@0.5': 1.0, 'F-measure@0.5': 0.8, 'Precision@3.0': 0.6666666666666666, 'Recall@3.0': 1.0, 'F-measure@3.0': 0.8, 'Ref-to-est deviation': np.float64",
+        'cause': 'evaluate() crops / pads the annotations (util.adjust_intervals) BEFORE any validator runs: the fault is cut away or re-labelled instead of rejected'},
+    ('segment', 'fault:est_zero_duration', 'evaluate'): {
+        'call': "mir_eval.segment.evaluate(np.array([[0.0, 2.0], [2.0, 4.0]]), ['a', 'a'], np.array([[0.0, 0.0], [0.5, 1.0], [1.0, 4.0]]), ['A', 'b', 'Chorus'])",
+        'observed': "returned {'Precision@0.5': 0.5, 'Recall@0.5': 0.6666666666666666, 'F-measure@0.5': 0.5714285714285715, 'Precision@3.0': 0.75, 'Recall@3.0': 1.0, 'F-measure@3.0': 0.8571428571428571, 'Ref-to-est deviat",
+        'cause': 'evaluate() crops / pads the annotations (util.adjust_intervals) BEFORE any validator runs: the fault is cut away or re-labelled instead of rejected'},
+    ('segment', 'fault:ref_1d', 'evaluate'): {
+        'call': "mir_eval.segment.evaluate(np.array([0.0, 8.0]), ['a'], np.array([[0.0, 4.5], [4.5, 8.0]]), ['chorus', 'Chorus'])",
+        'observed': 'IndexError: too many indices for array: array is 1-dimensional, but 2 were indexed',
+        'cause': 'evaluate() preprocesses (util.adjust_intervals / _align_intervals index intervals[:, 1] and labels) BEFORE util.validate_intervals runs'},
+    ('segment', 'fault:ref_3d', 'evaluate'): {
+        'call': "mir_eval.segment.evaluate(np.array([[[0.0, 10.0]]]), ['b'], np.array([[0.0, 10.0]]), ['c'])",
+        'observed': 'IndexError: index 1 is out of bounds for axis 1 with size 1',
+        'cause': 'evaluate() preprocesses (util.adjust_intervals / _align_intervals index intervals[:, 1] and labels) BEFORE util.validate_intervals runs'},
+    ('segment', 'fault:ref_n_by_1', 'evaluate'): {
+        'call': "mir_eval.segment.evaluate(np.array([[0.0]]), ['a'], np.array([[0.0, 4.5], [4.5, 8.0]]), ['chorus', 'Chorus'])",
+        'observed': 'IndexError: index 1 is out of bounds for axis 1 with size 1',
+        'cause': 'evaluate() preprocesses (util.adjust_intervals / _align_intervals index intervals[:, 1] and labels) BEFORE util.validate_intervals runs'},
+    ('segment', 'fault:ref_negative_duration', 'evaluate'): {
+        'call': "mir_eval.segment.evaluate(np.array([[1.5, 0.0], [1.5, 2.0], [2.0, 4.0]]), ['Chorus', 'c', 'verse'], np.array([[0.0, 5.0], [5.0, 6.0]]), ['verse', 'c'])",
+        'observed': "returned {'Precision@0.5': 1.0, 'Recall@0.5': 0.5, 'F-measure@0.5': 0.6666666666666666, 'Precision@3.0': 1.0, 'Recall@3.0': 0.5, 'F-measure@3.0': 0.6666666666666666, 'Ref-to-est deviation': np.float64",
+        'cause': 'evaluate() crops / pads the annotations (util.adjust_intervals) BEFORE any validator runs: the fault is cut away or re-labelled instead of rejected'},
+    ('segment', 'fault:ref_negative_time', 'evaluate'): {
+        'call': "mir_eval.segment.evaluate(np.array([[-0.5, 8.0]]), ['a'], np.array([[0.0, 4.5], [4.5, 8.0]]), ['chorus', 'Chorus'])",
+        'observed': "returned {'Precision@0.5': 0.6666666666666666, 'Recall@0.5': 1.0, 'F-measure@0.5': 0.8, 'Precision@3.0': 0.6666666666666666, 'Recall@3.0': 1.0, 'F-measure@3.0': 0.8, 'Ref-to-est deviation': np.float64",
+        'cause': 'evaluate() crops / pads the annotations (util.adjust_intervals) BEFORE any validator runs: the fault is cut away or re-labelled instead of rejected'},
+    ('segment', 'fault:ref_zero_duration', 'evaluate'): {
+        'call': "mir_eval.segment.evaluate(np.array([[0.0, 0.0], [3.5, 10.0]]), ['b', 'Chorus'], np.array([[0.0, 10.0]]), ['chorus'])",
+        'observed': "returned {'Precision@0.5': 1.0, 'Recall@0.5': 0.6666666666666666, 'F-measure@0.5': 0.8, 'Precision@3.0': 1.0, 'Recall@3.0': 0.6666666666666666, 'F-measure@3.0': 0.8, 'Ref-to-est deviation': np.float64",
+        'cause': 'evaluate() crops / pads the annotations (util.adjust_intervals) BEFORE any validator runs: the fault is cut away or re-labelled instead of rejected'},
+    ('segment', 'shape:empty_both', 'evaluate'): {
+        'call': 'mir_eval.segment.evaluate(np.zeros((0, 2)), [], np.zeros((0, 2)), [])',
+        'observed': "ValueError: Supplied intervals are empty, can't append new intervals",
+        'cause': 'segment.evaluate calls util.adjust_intervals on the empty reference (t_max=None): ValueError although the metrics define scores for empty annotations'},
+    ('segment', 'shape:empty_ref', 'evaluate'): {
+        'call': "mir_eval.segment.evaluate(np.zeros((0, 2)), [], np.array([[0.0, 2.0], [2.0, 4.0]]), ['a', 'b'])",
+        'observed': "ValueError: Supplied intervals are empty, can't append new intervals",
+        'cause': 'segment.evaluate calls util.adjust_intervals on the empty reference (t_max=None): ValueError although the metrics define scores for empty annotations'},
+    ('tempo', 'fault:weight_nan', 'detection'): {
+        'call': 'mir_eval.tempo.detection(np.array([60.0, 96.0]), np.nan, np.array([30.0, 30.0]))',
+        'observed': 'returned (np.float64(nan), False, False)',
+        'cause': 'reference_weight < 0 or > 1 is False for NaN'},
+    ('tempo', 'fault:weight_nan', 'evaluate'): {
+        'call': 'mir_eval.tempo.evaluate(np.array([60.0, 96.0]), np.nan, np.array([30.0, 30.0]))',
+        'observed': "returned {'P-score': np.float64(nan), 'One-correct': False, 'Both-correct': False}",
+        'cause': 'reference_weight < 0 or > 1 is False for NaN'},
+}
 
 
 def _known_key(f):
